@@ -50,6 +50,27 @@ theorem skeletons_agree :
    skeleton_connectDestroyed, skeleton_handleRead, skeleton_handleWrite, skeleton_handleClose, skeleton_handleError,
    skeleton_handleEventWithGuard⟩
 
+/-! the remaining public entry points: the hand-off of `startRead()` / `stopRead()` is unconditional, the three `send`
+overloads test the state, then the thread -/
+theorem skeleton_startRead : Gen.ConnSkel.startRead = Decl.startRead := by decide
+theorem skeleton_stopRead : Gen.ConnSkel.stopRead = Decl.stopRead := by decide
+theorem skeleton_sendPiece : Gen.ConnSkel.sendPiece = Decl.sendPiece := by decide
+theorem skeleton_sendBuf : Gen.ConnSkel.sendBuf = Decl.sendBuf := by decide
+theorem skeleton_sendPtr : Gen.ConnSkel.sendPtr = Decl.sendPtr := by decide
+theorem skeleton_sendInLoopPiece : Gen.ConnSkel.sendInLoopPiece = Decl.sendInLoopPiece := by decide
+theorem skeleton_setTcpNoDelay : Gen.ConnSkel.setTcpNoDelay = Decl.setTcpNoDelay := by decide
+
+theorem entry_points_agree :
+    Gen.ConnSkel.startRead = Decl.startRead ∧
+    Gen.ConnSkel.stopRead = Decl.stopRead ∧
+    Gen.ConnSkel.sendPiece = Decl.sendPiece ∧
+    Gen.ConnSkel.sendBuf = Decl.sendBuf ∧
+    Gen.ConnSkel.sendPtr = Decl.sendPtr ∧
+    Gen.ConnSkel.sendInLoopPiece = Decl.sendInLoopPiece ∧
+    Gen.ConnSkel.setTcpNoDelay = Decl.setTcpNoDelay :=
+  ⟨skeleton_startRead, skeleton_stopRead, skeleton_sendPiece, skeleton_sendBuf, skeleton_sendPtr,
+   skeleton_sendInLoopPiece, skeleton_setTcpNoDelay⟩
+
 /-! the trampolines that run the weak functors (`TcpConnection.cc`'s `notify*`, `WeakCallback::operator()`) and the
 default callbacks -/
 theorem skeleton_notifyWriteComplete : Gen.ConnSkel.notifyWriteComplete = Decl.notifyWriteComplete := by decide
